@@ -26,8 +26,8 @@ theorem sbv_denotes (n : Int) (w : Nat) (hw : 0 < w) (hlo : -((2 : Int) ^ (w - 1
     rw [if_neg (by omega), if_neg (by omega), if_neg (by omega)]
     have hcast : ((2 ^ w : Nat) : Int) = (2 : Int) ^ w := by simp
     by_cases h0 : n ≥ 0
-    · rw [if_pos h0, bv_ok h0 (by omega), BitVec.toNat_ofInt, hcast, Int.emod_eq_of_lt h0 (by omega)]
-    · rw [if_neg h0, bv_ok (by omega) (by omega), BitVec.toNat_ofInt, hcast]
+    · rw [if_pos h0, bv_ok hw h0 (by omega), BitVec.toNat_ofInt, hcast, Int.emod_eq_of_lt h0 (by omega)]
+    · rw [if_neg h0, bv_ok hw (by omega) (by omega), BitVec.toNat_ofInt, hcast]
       congr 3
       rw [← Int.add_emod_right n ((2 : Int) ^ w), Int.emod_eq_of_lt (by omega) (by omega)]; omega
   · rw [BitVec.toInt_ofInt]
@@ -66,10 +66,10 @@ theorem bvOne_denotes (w : Nat) (hw : 0 < w) : Mk.BVOne w = .ok (Term.bvc 1 w) :
   unfold Mk.BVOne
   have : (1 : Int) < 2 ^ w := by
     have := two_pow_pred hw; have := two_pow_pos (w - 1); omega
-  exact bv_ok (by decide) this
+  exact bv_ok hw (by decide) this
 
-theorem bvZero_denotes (w : Nat) : Mk.BVZero w = .ok (Term.bvc 0 w) :=
-  bv_ok (Int.le_refl 0) (two_pow_pos w)
+theorem bvZero_denotes (w : Nat) (hw : 0 < w) : Mk.BVZero w = .ok (Term.bvc 0 w) :=
+  bv_ok hw (Int.le_refl 0) (two_pow_pos w)
 
 /-! ## shifts by a Python integer -/
 
@@ -96,12 +96,7 @@ theorem shiftInt_denotes (I : Interp) (o : ShiftOp) {l t : Term} {k : Int} {w : 
     intro op strict h
     obtain ⟨a, ha, hb⟩ := shift_bind h
     simp only [shiftAmount, hw, bind, Except.bind] at ha
-    have h0 : ¬ k < 0 := by
-      intro hk; rw [(bv_error_iff k w).mpr (Or.inl hk)] at ha; cases ha
-    have h1 : ¬ k ≥ 2 ^ w := by
-      intro hk; rw [(bv_error_iff k w).mpr (Or.inr hk)] at ha; cases ha
-    rw [bv_ok (by omega) (by omega)] at ha
-    cases ha
+    obtain ⟨_, h0, h1, rfl⟩ := bv_ok_inv ha
     obtain ⟨_, _, rfl⟩ := bvBin_shape hb
     exact ⟨by omega, by omega, _, rfl⟩
   have hk : ∀ (h0 : 0 ≤ k) (h1 : k < 2 ^ w), k.toNat < 2 ^ w := by
@@ -125,7 +120,7 @@ theorem shiftInt_error (o : ShiftOp) (l : Term) (k : Int) (w : Nat) (hw : bvWidt
     (hk : k < 0 ∨ k ≥ 2 ^ w) : o.mk l (.i k) = .error .value := by
   cases o <;>
     simp [ShiftOp.mk, Mk.BVLShl, Mk.BVLShr, Mk.BVAShr, shiftAmount, hw, bind, Except.bind,
-      (bv_error_iff k w).mpr hk]
+      bv_error_of hk]
 
 /-- shift by a formula -/
 theorem shiftTerm_denotes (I : Interp) (o : ShiftOp) {l r t : Term} {w : Nat}
